@@ -1,14 +1,15 @@
 #!/bin/bash
-# Runs every mutant under /verif/mutants (or those given) against the quick check of the
-# property named in its meta.json; writes mutants/RESULTS.tsv (name, property, exit, first line).
+# Runs every broken tree under /verif/mutants and /verif/seeded (or the dirs given) against the quick
+# check of the property named in its meta.json; writes sensitivity/RESULTS.tsv.
 cd /verif
-out=mutants/RESULTS.tsv
-names=${@:-$(ls mutants | grep -v RESULTS)}
-for n in $names; do
-  prop=$(/venv/bin/python -c "import json;print(json.load(open('mutants/$n/meta.json'))['property'])")
+mkdir -p sensitivity
+out=sensitivity/RESULTS.tsv
+dirs=${@:-$(ls -d mutants/*/ seeded/*/)}
+for d in $dirs; do
+  d=${d%/}
+  prop=$(/venv/bin/python -c "import json;print(json.load(open('$d/meta.json'))['property'])")
   t0=$(date +%s)
-  res=$(VERIF_WORKERS=${VERIF_WORKERS:-8} tools/run_mutant.sh mutants/$n $prop 2>&1 | grep -v "^KNOWN" | head -3 | tr '\n' ' ' | cut -c1-300)
-  code=${PIPESTATUS[0]}
+  res=$(VERIF_WORKERS=${VERIF_WORKERS:-12} tools/run_mutant.sh $d $prop 2>&1 | grep -v "^KNOWN" | grep -v "^NOTE" | head -2 | tr '\n' ' ' | cut -c1-260)
   st=$(echo "$res" | grep -q VIOLATION && echo CAUGHT || echo MISSED)
-  echo -e "$n\t$prop\t$st\t$(( $(date +%s) - t0 ))s\t$res" | tee -a $out
+  echo -e "$d\t$prop\t$st\t$(( $(date +%s) - t0 ))s\t$res" | tee -a $out
 done
